@@ -552,22 +552,55 @@ func propC04(c *Check) {
 	} else {
 		c.Violated("R2", "loop-bound @ "+FuncKey(vm), p.Pos(vm.Pos()), "loop is not bounded by len(proof)/32 reason=not-established")
 	}
-	// result is bytes.Equal(current, root)
-	resOK := false
+	// result: every value that can be returned as true is bytes.Equal(current, root), where current is the
+	// loop-carried node — or the txid itself on an exit taken only for an empty path (zero levels)
+	resOK := true
+	nRes := 0
+	emptyPath := lit(EQ("0", "(len($2) / 32)")) + "|" + lit(EQ("0", "len($2)")) + "|" + lit("((len($2) / 32) <= 0)") + "|" + lit("(len($2) < 32)")
+	loopRes := regexp.MustCompile(`^bytes\.Equal\(φ\{\$0\|crypto\.DoubleSHA256Sum\(.*\)\}, \$1\)$`)
 	for _, e := range Exits(vm) {
 		if e.Kind == exitFailure {
 			continue
 		}
-		s := r.E(e.Ret.Results[0])
-		if regexp.MustCompile(`^bytes\.Equal\(φ\{\$0\|crypto\.DoubleSHA256Sum\(.*\)\}, \$1\)$`).MatchString(s) {
-			resOK = true
+		// the candidate true values: the result itself, or the non-constant entries of a returned φ (a && b)
+		type cand struct {
+			v    ssa.Value
+			pred *ssa.BasicBlock
+		}
+		var cands []cand
+		if ph, ok := e.Ret.Results[0].(*ssa.Phi); ok && ph.Block() == e.Ret.Block() {
+			for k, ev := range ph.Edges {
+				if kc, isC := ev.(*ssa.Const); isC && kc.Value != nil && kc.Value.String() == "false" {
+					continue
+				}
+				cands = append(cands, cand{ev, ph.Block().Preds[k]})
+			}
 		} else {
-			resOK = false
-			c.Violated("R2", "result @ "+FuncKey(vm), p.InstrPos(e.Ret), "a non-false result that is not bytes.Equal(current, root): "+s)
+			cands = append(cands, cand{e.Ret.Results[0], nil})
+		}
+		for _, cd := range cands {
+			nRes++
+			s := r.E(cd.v)
+			switch {
+			case loopRes.MatchString(s):
+			case s == "bytes.Equal($0, $1)":
+				var tgt ssa.Instruction = e.Ret
+				if cd.pred != nil {
+					tgt = cd.pred.Instrs[len(cd.pred.Instrs)-1]
+				}
+				if !c.RequireFact(vm, "R2", "txid-is-root-only-for-empty-path", emptyPath, instrSet([]ssa.Instruction{tgt}), "result bytes.Equal(txid, root)") {
+					resOK = false
+				}
+			default:
+				resOK = false
+				c.Violated("R2", "result @ "+FuncKey(vm), p.InstrPos(e.Ret), "a non-false result that is not bytes.Equal(current, root): "+s)
+			}
 		}
 	}
-	if resOK {
+	if resOK && nRes > 0 {
 		c.Held("R2", "result @ "+FuncKey(vm), p.Pos(vm.Pos()), "true only via bytes.Equal(current, root)")
+	} else if nRes == 0 {
+		c.Violated("R2", "result @ "+FuncKey(vm), p.Pos(vm.Pos()), "no result that can be true reason=not-established")
 	}
 	// R3 position bound
 	c.positionBound("R3")
@@ -612,7 +645,12 @@ func (c *Check) positionBound(rule string) {
 	vm := p.MustFn("x/bitcoin/types.VerifyMerkelProof")
 	idx := "φ{$3|(@ >> 1)}"
 	lv := `\(len\(\$2\) / 32\)`
-	bound := lit(EQ("0", idx)) + `|^\(0 == \(\$3 >> ` + lv + `\)\)$|^\(\$3 < \(1 << ` + lv + `\)\)$`
+	n := "(len($2) / 32)"
+	_ = lv
+	// position < 2^levels, in any of its exact forms: the position shifted once per level is zero; the
+	// position shifted by the number of levels is zero (Go: a shift count >= 32 gives 0, as 32+ single
+	// shifts do); 32 or more levels (every uint32 position is in range); position < 1<<levels; position == 0
+	bound := lit(EQ("0", idx)) + "|" + lit(EQ("0", "($3 >> "+n+")")) + "|" + lit("($3 < (1 << "+n+"))") + "|" + lit("(32 <= "+n+")") + "|" + lit(EQ("0", "$3"))
 	c.RequireFact(vm, rule, "position<2^len(path)", bound, nil, "")
 }
 
@@ -718,6 +756,9 @@ func curPhiString(p *Prog, vm *ssa.Function) (string, bool) {
 		for _, in := range b.Instrs {
 			if ci, ok := in.(*ssa.Call); ok {
 				if f := ci.Call.StaticCallee(); f != nil && f.Pkg != nil && f.Pkg.Pkg.Path() == "bytes" && f.Name() == "Equal" {
+					if _, isPhi := ci.Call.Args[0].(*ssa.Phi); !isPhi {
+						continue // bytes.Equal(txid, root) of an empty-path exit: judged by the result rule
+					}
 					seen := map[ssa.Value]bool{}
 					hashes := 0
 					var walk func(v ssa.Value) bool
